@@ -241,11 +241,20 @@ def eigen_sym33_non_unit(tensor):
     fac1 = if_then_else(rm2xx2 < rm2yy2, k_a_rm2xy*ai_ai, rm2xx)
     fac2 = if_then_else(rm2xx2 < rm2yy2, rm2yy, ki_ki*k_a_rm2xy)
 
+    # (fac1, fac2), the in-plane direction of evec0, is rounding noise when
+    # eval0 ~ eval1. Inside jit(vmap) XLA re-evaluates cheap scalars for every
+    # vector component they are broadcast into, with different roundings, so
+    # each component of evec0/evec1 saw a different direction (eigenvectors not
+    # orthogonal). A division is evaluated once (XLA does not duplicate it):
+    # scale the pair by its largest magnitude, then test the stored values.
+    facmax = np.maximum(np.abs(fac1), np.abs(fac2))
+    facmax = np.where(facmax > 0.0, facmax, 1.0)
+    fac1 = fac1/facmax
+    fac2 = fac2/facmax
+
     evec0 = fac1*a_row2 - fac2*k_row1
 
-    rm2xx2iszero = rm2xx2 == (0.0)
-    rm2xy_rm2xyiszero = rm2xy_rm2xy == (0.0)
-    both_zero = rm2xx2iszero & rm2xy_rm2xyiszero
+    both_zero = (fac1 == 0.0) & (fac2 == 0.0)
 
     # check degeneracy
     
